@@ -1624,9 +1624,13 @@ func (db *DB) CommitWAL(ctx context.Context) (err error) {
 	}
 
 	// Build sorted list of page numbers in current transaction.
+	// Pages beyond the commit size were written and then truncated within the
+	// transaction so they are not part of the resulting image.
 	pgnos := make([]uint32, 0, len(txFrameOffsets))
 	for pgno := range txFrameOffsets {
-		pgnos = append(pgnos, pgno)
+		if pgno <= commit {
+			pgnos = append(pgnos, pgno)
+		}
 	}
 	sort.Slice(pgnos, func(i, j int) bool { return pgnos[i] < pgnos[j] })
 
